@@ -131,6 +131,12 @@ theorem static_date_literal (a b c d e f g h : Char) (ty : Str)
     Lexer.defaultIsDynamic [a, b, c, d, '-', e, f, '-', g, h] ty = some false :=
   static_single_token "DATE" _ ty (by simp) (by decide) (Lexer.scan_date a b c d e f g h ha hb hc hd he hf hg hh)
 
+/-- a quote-free word (an ASCII letter or `_`, then letters / digits / `_`) is a static default, for every
+    element type: it lexes as one NAME token -/
+theorem static_word (c : Char) (cs ty : Str) (hc : c ∈ Lexer.letters) (h : ∀ x ∈ cs, x ∈ Lexer.wordChars) :
+    Lexer.defaultIsDynamic (c :: cs) ty = some false :=
+  static_single_token "NAME" (c :: cs) ty (by simp) (by decide) (Lexer.scan_word c cs hc h)
+
 /-! ## setvalue placement -/
 
 /-- **exactly once, all trees**: the first-load setvalues of the output — those in `<model>` and those
@@ -394,6 +400,7 @@ example : expSetP dynEx subEx (["data".toList, "r".toList, "b".toList], some ["d
                   value := some "now()".toList } }] := by
   simp [expSetP, hasDynDefault, dynEx, exB, subEx]
 example : Lexer.allDigits "2024".toList := by intro c hc; simp at hc; rcases hc with rfl | rfl | rfl | rfl <;> decide
+example : 'y' ∈ Lexer.letters ∧ ∀ x ∈ "es_2".toList, x ∈ Lexer.wordChars := by decide
 -- lexer: the traps of DESIGN Appendix F on the pinned rules
 example : (scanWith pinnedRules "a <= b".toList).1.map (·.1) = ["NAME", "WHITESPACE", "OPS_COMP", "OPS_COMP", "WHITESPACE", "NAME"] := by
   decide +kernel
